@@ -639,6 +639,7 @@ type pathResult struct {
 
 func (m *M) runPath(prefix []dec) (res pathResult) {
 	m.resetPath(prefix)
+	defer m.killTasks()
 	defer func() {
 		if r := recover(); r != nil {
 			if _, isEE := r.(engineErr); !isEE {
@@ -678,8 +679,8 @@ func (m *M) runPath(prefix []dec) (res pathResult) {
 	}
 	m.call(H.fn, nil)
 	m.flushAsserts()
-	if len(m.sched.pending) > 0 {
-		m.report("leak", "GOROUTINE-LEAK", fmt.Sprintf("%d goroutine(s) still pending when the harness returned", len(m.sched.pending)), "", "", "")
+	if n := m.sched.unfinished(); n > 0 {
+		m.report("leak", "GOROUTINE-LEAK", fmt.Sprintf("%d goroutine(s) still pending when the harness returned", n), "", "", "")
 	}
 	for _, r := range m.checkRaces() {
 		m.report("race", "RACE", r, "", "", "")
